@@ -6,6 +6,8 @@
   `TimePointDumper._rec_formats`.  Agreement with the Python: driver ops `tround`, `tdump`.
 -/
 import IsoDT.Lemmas.TextDecode
+import IsoDT.Lemmas.TextRoundStr
+import IsoDT.Lemmas.TextRoundParse
 
 namespace IsoDT.Props.C08
 open IsoDT IsoDT.Text
@@ -22,11 +24,6 @@ def dateSuffix : Date → List Char
 
 def zoneSuffix (z : TZ) : List Char :=
   if z.h = 0 ∧ z.mi = 0 then ['Z'] else ['+', 'h', 'h', ':', 'm', 'm']
-
-def dateYear : Date → Int
-  | .cal y _ _ => y
-  | .ord y _ => y
-  | .week y _ _ => y
 
 /-- **C08 (default format)**: for a whole-second point in any of the three representations,
     `_get_dump_format` is the year digits (signed iff expanded digits are agreed) followed by the
@@ -52,7 +49,63 @@ theorem C08_default_format (ned : Nat) (p : TP) :
     by_cases hn : ned = 0 <;> by_cases hy : y < 0 <;> by_cases hz : tz.h = 0 ∧ tz.mi = 0 <;>
       simp [hn, hy, hz, fracZero]
 
-example : getDumpFormat (XTP.ofTP 2 ⟨.week (-400) 53 7, 24, 0, 0, ⟨0, -30⟩⟩) =
-    .ok "-000400-Www-DThh:mm:ss+hh:mm".toList := by rfl
+example : getDumpFormat (XTP.ofTP 2 ⟨.week (-396) 53 7, 24, 0, 0, ⟨0, -30⟩⟩) =
+    .ok "-000396-Www-DThh:mm:ss+hh:mm".toList := by rfl
+
+/-! ## The round trip -/
+
+/-- **C08 (writing)**: for every valid whole-second point `p` — calendar, ordinal or week
+    representation, any of the four calendar modes, any legal UTC offset (also zero hours with
+    negative minutes), 24:00:00 included — whose year is within the range the agreed number of
+    expanded year digits can spell (0000–9999 without, `|y| < 10^(4+ned)` with), `str(p)` is exactly
+    the specified ISO 8601 text `stdText ned p`: signed-iff-expanded year digits, the complete
+    extended date in `p`'s own representation, `Thh:mm:ss`, and `Z` or `±hh:mm`. -/
+theorem C08_str (m : Mode) (ned : Nat) (hned : ned = 0 ∨ ned = 2 ∨ ned = 3) (p : TP) (hv : p.Valid m)
+    (hy : YearInRange ned (dateYear p.date)) :
+    str m (XTP.ofTP ned p) = .ok (stdText ned p) := str_eq_stdText m ned hned p hv hy
+
+/-- **C08 (reading)**: a parser with the matching number of expanded year digits and extended
+    notation allowed — whatever its `allow_truncated` setting and default-zone configuration —
+    decodes that text to exactly `p`, field for field: same representation, same offset, not
+    truncated, zone known, no decimals. -/
+theorem C08_parse (cfg : Cfg) (hpt : cfg.pt ∈ Gen.Templates.parserTables) (hb : cfg.pt.basicOnly = false)
+    (p : TP) (hv : p.Valid cfg.mode) (hy : YearInRange cfg.pt.ned (dateYear p.date)) :
+    parse cfg (stdText cfg.pt.ned p) false = some (XTP.ofTP cfg.pt.ned p) :=
+  parse_stdText cfg hpt hb p hv hy
+
+/-- Every parser table carries 0, 2 or 3 expanded year digits (the configurations regenerated). -/
+theorem tables_ned : ∀ pt ∈ Gen.Templates.parserTables, pt.ned = 0 ∨ pt.ned = 2 ∨ pt.ned = 3 := by
+  decide +kernel
+
+/-- **C08 (round trip)**: writing a valid whole-second point out and reading it back is lossless,
+    and `str` is a fixpoint: `str(p)` succeeds with some text, `parse(text)` is a point with exactly
+    `p`'s representation, offset and field values, and `str` of that point is the same text again —
+    for all three date representations, expanded and negative years, 24:00:00, every UTC offset,
+    every calendar mode, every parser default-zone / truncation setting. -/
+theorem C08_roundtrip (cfg : Cfg) (hpt : cfg.pt ∈ Gen.Templates.parserTables) (hb : cfg.pt.basicOnly = false)
+    (p : TP) (hv : p.Valid cfg.mode) (hy : YearInRange cfg.pt.ned (dateYear p.date)) :
+    ∃ text q, str cfg.mode (XTP.ofTP cfg.pt.ned p) = .ok text ∧ parse cfg text false = some q ∧
+      q = XTP.ofTP cfg.pt.ned p ∧ q.toTP? = some p ∧ str cfg.mode q = .ok text := by
+  have hs := C08_str cfg.mode cfg.pt.ned (tables_ned cfg.pt hpt) p hv hy
+  refine ⟨stdText cfg.pt.ned p, XTP.ofTP cfg.pt.ned p, hs, C08_parse cfg hpt hb p hv hy, rfl, ?_, hs⟩
+  obtain ⟨dt, hh, mi, ss, tz⟩ := p
+  cases dt <;> rfl
+
+/-- Outside the agreed digits the property does not apply: year 10000 without expanded digits
+    prints five digits, which the four-digit parser refuses. -/
+theorem C08_year_out_of_range_example :
+    (match str .greg (XTP.ofTP 0 ⟨.cal 10000 1 1, 0, 0, 0, ⟨0, 0⟩⟩) with
+      | .ok t => t == "10000-01-01T00:00:00Z".toList &&
+          (parse ⟨Gen.Templates.parser_0_all, false, .unknown, .greg⟩ t false).isNone
+      | .error _ => false) = true := by decide +kernel
+
+/-- Non-vacuity: the round trip instantiated at a week date in year -396, 24:00:00, offset -00:30,
+    two expanded digits, a parser that allows truncated forms and assumes +05:30. -/
+example : ∃ text q, str .greg (XTP.ofTP 2 ⟨.week (-396) 53 7, 24, 0, 0, ⟨0, -30⟩⟩) = .ok text ∧
+    parse ⟨Gen.Templates.parser_2_all, true, .assumed 5 30, .greg⟩ text false = some q ∧
+    q = XTP.ofTP 2 ⟨.week (-396) 53 7, 24, 0, 0, ⟨0, -30⟩⟩ ∧
+    q.toTP? = some ⟨.week (-396) 53 7, 24, 0, 0, ⟨0, -30⟩⟩ ∧ str .greg q = .ok text :=
+  C08_roundtrip ⟨Gen.Templates.parser_2_all, true, .assumed 5 30, .greg⟩ (.tail _ (.tail _ (.head _))) rfl
+    ⟨.week (-396) 53 7, 24, 0, 0, ⟨0, -30⟩⟩ (by decide +kernel) (by decide +kernel)
 
 end IsoDT.Props.C08
